@@ -398,7 +398,15 @@ fn obs_inproc(
             Err(msg) => (
                 LaunchObs {
                     abnormal: None,
-                    fields: vec![("stage".to_owned(), "panic".to_owned()), ("errors".to_owned(), msg)],
+                    // The real binary would let the Rust runtime print its panic banner, which carries
+                    // the panicking thread's id (= the plan's pid for the first thread that asks, see
+                    // the gettid seam): mirror that dependency, so that a panic is compared the way
+                    // the exec tier compares it.
+                    fields: vec![
+                        ("stage".to_owned(), "panic".to_owned()),
+                        ("errors".to_owned(), msg.clone()),
+                        ("stderr".to_owned(), format!("thread '<unnamed>' ({}) panicked: {msg}", plan.pid)),
+                    ],
                 },
                 CallLog::default(),
             ),
@@ -428,7 +436,15 @@ fn obs_inproc(
         Err(msg) => (
             LaunchObs {
                 abnormal: None,
-                fields: vec![("stage".to_owned(), "panic".to_owned()), ("errors".to_owned(), msg)],
+                // The real binary would let the Rust runtime print its panic banner, which carries
+                    // the panicking thread's id (= the plan's pid for the first thread that asks, see
+                    // the gettid seam): mirror that dependency, so that a panic is compared the way
+                    // the exec tier compares it.
+                    fields: vec![
+                        ("stage".to_owned(), "panic".to_owned()),
+                        ("errors".to_owned(), msg.clone()),
+                        ("stderr".to_owned(), format!("thread '<unnamed>' ({}) panicked: {msg}", plan.pid)),
+                    ],
             },
             CallLog::default(),
         ),
